@@ -32,6 +32,8 @@ def gen_case(rng, k):
                 out.append(["cell", rng.choice([1.01, 0.99, 1.02])])
                 if random.Random(len(out) * 31 + k).random() < 0.35:
                     out[-1][1] = [1.000004, 0.9999998, 1.0000000625][len(out) % 3]      # a fine-tuning strain is a change of the cell all the same
+                elif random.Random(len(out) * 17 + k).random() < 0.3:
+                    out[-1][1] = "shear"      # a change of shape at constant volume is a change of the cell all the same
             elif r < 0.65:
                 out.append(["shift"])
             else:
